@@ -47,14 +47,15 @@ func C02_Slice[T signal.SignalTypes]() {
 	vf.Assert("capacity", child.Capacity() == pcap-start)
 	vf.Assert("cap", child.Cap() == C*(pcap-start))
 	// the view is a header of its own: a length change through it leaves the parent's length alone
+	// slicing the same frames again gives another independent header
+	again := parent.Slice(start, end)
+	vf.Assert("same-frames-again-is-a-new-view", again != child && again.Len() == C*(end-start) && again.Cap() == C*(pcap-start))
 	if child.Len() < child.Cap() {
 		vf.Cover("child-append")
 		child.AppendSample(vf.Any[T]("x"))
 		vf.Assert("child-grew", child.Len() == C*(end-start)+1)
 		vf.Assert("parent-length-unchanged-by-child-append", parent.Len() == pl && parent.Length() == plen)
-		// slicing the same frames again gives another independent header
-		again := parent.Slice(start, end)
-		vf.Assert("same-frames-again-is-a-new-view", again != child && again.Len() == C*(end-start) && again.Cap() == C*(pcap-start))
+		vf.Assert("sibling-view-length-unchanged-by-child-append", again.Len() == C*(end-start))
 	}
 	full := child.Slice(0, child.Capacity())
 	if full.Len() == 0 {
